@@ -6,15 +6,39 @@
 #define TAO_PEGTL_INTERNAL_BUMP_HELP_HPP
 
 #include <cstddef>
+#include <type_traits>
 
 #include "../config.hpp"
 
 namespace TAO_PEGTL_NAMESPACE::internal
 {
+   // A rule whose peek class masks the input compares ( byte & mask ),
+   // hence it can consume the eol character when the masked eol character
+   // is in its set, not only when the eol character itself is.
+
+   template< typename Rule, typename = void >
+   struct bump_help_test
+   {
+      [[nodiscard]] static constexpr bool eol( const char c ) noexcept
+      {
+         return Rule::test_any( c );
+      }
+   };
+
+   template< typename Rule >
+   struct bump_help_test< Rule, std::void_t< decltype( Rule::peek_t::mask ) > >
+   {
+      [[nodiscard]] static constexpr bool eol( const char c ) noexcept
+      {
+         using data_t = typename Rule::peek_t::data_t;
+         return Rule::test_any( static_cast< data_t >( static_cast< data_t >( static_cast< unsigned char >( c ) ) & Rule::peek_t::mask ) );
+      }
+   };
+
    template< typename Rule, typename ParseInput >
    void bump_help( ParseInput& in, const std::size_t count )
    {
-      if constexpr( Rule::test_any( ParseInput::eol_t::ch ) ) {
+      if constexpr( bump_help_test< Rule >::eol( ParseInput::eol_t::ch ) ) {
          in.bump( count );
       }
       else {
